@@ -7,7 +7,6 @@ import (
 	"encoding/json"
 	"fmt"
 	"os"
-	"os/exec"
 	"sort"
 	"strings"
 	"sync"
@@ -141,6 +140,17 @@ var c07Recipes = []c07Recipe{
 	{"tag-4-keys", func(k func(jen.Code) jen.Code) jh.Outcome {
 		return c07File(false, func(f *jen.File) {
 			f.Type().Id("T").Struct(jen.Id("A").Int().Tag(map[string]string{"json": "a", "xml": "b", "db": "c", "db2": "d"}), jen.Id("B").Int().Tag(map[string]string{"b": "1", "a": "2"}))
+		})
+	}},
+	{"tag-keys-differing-in-case-width-and-digits", func(k func(jen.Code) jen.Code) jh.Outcome {
+		return c07File(false, func(f *jen.File) {
+			f.Type().Id("T").Struct(jen.Id("A").Int().Tag(map[string]string{"db": "a", "DB": "b", "Db": "c", "db2": "d"}), jen.Id("B").Int().Tag(map[string]string{"k": "1", "K": "2", "k_": "3"}))
+		})
+	}},
+	{"importnames-sibling-major-versions", func(k func(jen.Code) jen.Code) jh.Outcome {
+		return c07File(false, func(f *jen.File) {
+			f.ImportNames(map[string]string{"x.y/render": "render", "x.y/render/v2": "renderer", "x.y/render.v4": "rndr", "x.y/Render/v5": "big"})
+			f.Var().Id("_").Op("=").List(jen.Qual("x.y/render/v3", "X"), jen.Qual("x.y/render.v6", "X"), jen.Qual("x.y/render/v2", "X"), jen.Qual("x.y/render/v3/sub", "X"))
 		})
 	}},
 	{"importnames-4", func(k func(jen.Code) jen.Code) jh.Outcome {
@@ -392,13 +402,13 @@ func runC07(r *ev.Recorder) {
 					defer wg.Done()
 					sem <- struct{}{}
 					defer func() { <-sem }()
-					out, err := exec.Command(self, "c07shard", rc.name, fmt.Sprint(dev)).Output()
+					out, err := shardCommand(self, "c07shard", rc.name, fmt.Sprint(dev)).Output()
 					if err != nil || json.Unmarshal(out, &results[i]) != nil {
 						fmt.Fprintf(os.Stderr, "C07: shard %s failed: %v\n%s\n", rc.name, err, out)
 						os.Exit(2)
 					}
 					for k := 0; k < 2; k++ {
-						h, err := exec.Command(self, "native", rc.name).Output()
+						h, err := shardCommand(self, "native", rc.name).Output()
 						if err != nil {
 							fmt.Fprintln(os.Stderr, "C07: native child failed:", err)
 							os.Exit(2)
